@@ -83,6 +83,12 @@ KW_MENUS = [
 # wide sets: default-Size thresholds (do_all = 100, do_all_exceptions = 4000)
 BIG_KS = [100, 101, 4000, 4001]
 
+# pruning option points: they make frequency matter by design, so the
+# repeat-invariance clause is void under them - but the SAME multiset in any
+# form / order must still give the same list (form-equality clauses only)
+PRUNE_POINTS = [{'min_strings_per_pattern': 2}, {'max_patterns': 1},
+                {'min_strings_per_pattern': 3, 'max_patterns': 2}]
+
 # an unrelated call made in the middle of every set case
 FOREIGN = (['q_9-', 'Z.z', ' _ ', 'é-é'],
            {'extra_letters': '_-.', 'dialect': 'perl', 'tag': True,
@@ -313,6 +319,17 @@ class C14(Check):
             self.code = compile(f.read(), self.src_path, 'exec')
         self.rexpy = self.fresh_module()
         self.real_random = random
+        # Garbage collection is made a deterministic, owned event: everything
+        # alive now (pandas, numpy, the engine) is moved out of the
+        # collector's sight, inside a case the automatic collector is off
+        # and gc.collect() runs at stated points only (start of the case,
+        # every from-scratch reset, and the probes after seeded calls).  A
+        # finalizer in rexpy therefore runs at the same point in the worker
+        # and in a replay.
+        import gc
+        self.gc = gc
+        gc.collect()
+        gc.freeze()
 
     def fresh_module(self):
         """A new instance of the rexpy module (its source executed into a
@@ -337,6 +354,7 @@ class C14(Check):
         rx = self.rexpy
         AB.state_restore(rx, rx.__mc_pristine__)
         rx.random = self.real_random
+        self.gc.collect()
         self.random.seed(4242)
 
     def call(self, fn, *a, **kw):
@@ -368,8 +386,44 @@ class C14(Check):
             return self.run_case_(case)
 
     def run_case_(self, case):
-        k = case['k']
         self.rexpy = self.fresh_module()
+        self._late = set()
+        gc = self.gc
+        gc.collect()        # what earlier cases left behind is finalised here
+        gc.disable()
+        try:
+            return self.run_case__(case)
+        finally:
+            gc.enable()
+
+    def gc_probe(self, R, before, detail, sub):
+        """'the state of the global generator is the same after the call as
+        before it' - and stays what the caller makes of it: the caller draws
+        a number, then whatever the seeded call left behind is finalised
+        (gc.collect()); the generator must not move.  `before` = the state
+        before the seeded call (names the jump in the signature)."""
+        rnd = self.random
+        rnd.random()
+        mark = rnd.getstate()
+        self.gc.collect()
+        now = rnd.getstate()
+        R.ev(0, checked=1)
+        if now == mark:
+            rnd.setstate(before)    # (the probe itself leaves no trace)
+            return True
+        sig = ('seeded:state-changes-after-return:on-garbage-collection:%s'
+               % ('back-to-pre-call-state' if now == before else 'other'))
+        if sig not in self._late:
+            self._late.add(sig)
+            R.out('differs:state-after-return')
+            R.viol(sig, 'global-state-restored',
+                   dict(detail, then='random.random(); gc.collect()',
+                        observed='random.getstate() changed during '
+                                 'gc.collect()'), sub)
+        return False
+
+    def run_case__(self, case):
+        k = case['k']
         if k == 'set':
             return self.run_set(case)
         if k == 'memo':
@@ -406,11 +460,15 @@ class C14(Check):
                  'bytes-list': 'form', 'bytes-dict': 'form',
                  'repeat-list': 'repeat', 'repeat-dict': 'repeat'}
 
-        def cmp(family, got, inp, reordered_input=False):
+        def cmp(family, got, inp, reordered_input=False, base=base,
+                opts=opts, base_inp=xs):
             R.ev()
             if got != base:
                 R.out('differs:%s' % family)
                 group = GROUP.get(family, family)
+                if family.startswith('form:'):
+                    group = ('form:bytes-dict' if 'bytes-dict' in family
+                             else family)
                 if family.startswith('pandas:'):
                     group = 'form:' + family
                     if 'unused' in family or 'categorical-row' in family \
@@ -420,12 +478,16 @@ class C14(Check):
                     group = 'order'
                 kind = ('reordered' if sorted(map(str, got))
                         == sorted(map(str, base)) else 'different')
-                R.viol('%s:%s:%s' % (group, kind, 'default-options' if o == 0
-                                     else 'non-default-options'),
+                R.viol('%s:%s:%s' % (group, kind,
+                                     'pruning-options' if opts is not
+                                     AB.OPTIONS[o] else 'default-options'
+                                     if o == 0 else 'non-default-options'),
                        'same-multiset-same-result',
                        {'examples': xs, 'options': opts, 'variant': family,
-                        'input': inp, 'got': got, 'base_input': xs,
-                        'base': base, 'shapes': sh}, family)
+                        'input': inp, 'got': got, 'base_input': base_inp,
+                        'base': base, 'shapes': sh},
+                       family if opts is AB.OPTIONS[o] else
+                       [family, sorted(opts.items() - AB.OPTIONS[o].items())])
 
         cmp('repeat-call', self.ex(list(xs), opts), xs)
         for p in itertools.permutations(range(n)):
@@ -441,6 +503,11 @@ class C14(Check):
         d = {extra: 0}
         d.update((s, 1) for s in xs)
         cmp('dict-zero-count', self.ex(d, opts), {'dict': d})
+        # every other form of the examples argument (the statement: the
+        # result depends only on which strings were supplied and how often)
+        for label, arg, desc, reord in self.arg_forms(xs, [1] * n, extra,
+                                                      False):
+            cmp('form:' + label, self.ex(arg, opts), desc, reord)
         if n == 0 and opts.get('remove_empties'):
             for inp in ([''], ['', ''], {'': 2}):
                 cmp('only-removed-empties', self.ex(inp, opts),
@@ -457,9 +524,48 @@ class C14(Check):
         cmp('bytes-dict', self.ex(dict((b, 2) for b in reversed(enc)), opts,
                                   encoding='utf-8'),
             {'bytes dict x2, reversed, encoding=utf-8': xs}, True)
+        encx = extra.encode('utf-8')
+        d = {encx: 0}
+        d.update((b, 1) for b in enc)
+        cmp('form:bytes-dict-zero-count',
+            self.ex(d, opts, encoding='utf-8'),
+            {'bytes dict, encoding=utf-8': dict([(extra, 0)]
+                                                + [(x, 1) for x in xs])})
         if o == 0:
             for label, cols, desc, reord in self.pandas_forms(xs):
                 cmp(label, self.call(self.rexpy.pdextract, cols), desc, reord)
+        # pruning options: the same multiset (with repeats) in every form and
+        # order gives the same list (no repeat-invariance clause here)
+        if n and (o or n != 2 or all(x in AB.A_OPT for x in xs)):
+            if o == 0 and n > 1:
+                skip = sum(map(len, xs)) % 3
+                pts = [pt for i, pt in enumerate([(0, False), (1, True),
+                                                  (2, False)]) if i != skip]
+            else:
+                pts = [((o + n) % len(PRUNE_POINTS), bool(o % 2))]
+            for pi, rev in pts:
+                popts = dict(opts)
+                popts.update(PRUNE_POINTS[pi])
+                v = [1 + i % 3 for i in range(n)]
+                if rev:
+                    v = v[::-1]
+                if n == 1:
+                    v = [2 if rev else 1]
+                ml = AB.round_robin(xs, v)
+                pbase = self.ex(list(ml), popts)
+                R.ev()
+                R.out('prune%d:rex=%d' % (pi, len(pbase)))
+                cmp('form:list-reversed', self.ex(ml[::-1], popts),
+                    ml[::-1], True, pbase, popts, ml)
+                for label, arg, desc, reord in self.arg_forms(xs, v, extra,
+                                                              True):
+                    cmp('form:' + label, self.ex(arg, popts), desc, reord,
+                        pbase, popts, ml)
+                for label, arg, desc, reord in self.bytes_forms(xs, v,
+                                                                extra):
+                    cmp('form:' + label,
+                        self.ex(arg, popts, encoding='utf-8'), desc, reord,
+                        pbase, popts, ml)
         # an unrelated call with other options made first, in a pristine
         # module instance, changes nothing
         keep = self.rexpy
@@ -486,6 +592,11 @@ class C14(Check):
                        'global-state-restored',
                        {'examples': xs, 'options': opts, 'seed': 1,
                         'pre': 'random.seed(%d)' % pre}, 'seeded-state')
+            else:
+                self.gc_probe(R, before,
+                              {'examples': xs, 'options': opts, 'seed': 1,
+                               'pre': 'random.seed(%d)' % pre},
+                              'seeded-state-later')
         if seeded[0] != seeded[1]:
             R.out('differs:seeded')
             R.viol('seeded-unsampled:result:%s' % sh,
@@ -494,6 +605,44 @@ class C14(Check):
                     'after random.seed(100)': seeded[0],
                     'after random.seed(200)': seeded[1]}, 'seeded')
         return R
+
+    def arg_forms(self, xs, v, extra, counts):
+        """(label, examples argument, description, reordered?) for the
+        multiset xs x v in forms other than the plain list.  counts=False
+        (all frequencies 1; the plain dict and zero-count dict forms are
+        compared elsewhere): tuple, one-shot iterable, dict subclasses, dict
+        view; counts=True: the forms that carry frequencies"""
+        import collections
+        ml = AB.round_robin(xs, v)
+        pairs = list(zip(xs, v))
+        rp = pairs[::-1]
+        out = [('Counter', collections.Counter(dict(rp)), {'Counter': rp},
+                len(xs) > 1)]
+        if counts:
+            z = [(extra, 0)] + pairs
+            out += [('dict-with-counts', dict(pairs), {'dict': pairs}, False),
+                    ('dict-zero-count-entry', dict(z), {'dict': z}, False)]
+        else:
+            out += [('tuple', tuple(ml), {'tuple': ml}, False),
+                    ('generator', (x for x in ml), {'generator': ml}, False),
+                    ('OrderedDict', collections.OrderedDict(rp),
+                     {'OrderedDict': rp}, len(xs) > 1),
+                    ('dict-keys-view', dict(pairs).keys(),
+                     {'dict.keys()': xs}, False)]
+        return out
+
+    def bytes_forms(self, xs, v, extra):
+        """the same multiset as encoded strings (extract(..., encoding=))"""
+        e = lambda t: t.encode('utf-8')
+        ml = AB.round_robin(xs, v)
+        pairs = list(zip(xs, v))
+        bp = [(e(x), f) for x, f in pairs]
+        z = [(extra, 0)] + pairs
+        return [('bytes-list', [e(x) for x in ml], {'bytes list': ml}, False),
+                ('bytes-dict', dict(bp[::-1]), {'bytes dict': pairs[::-1]},
+                 len(xs) > 1),
+                ('bytes-dict-zero-count-entry',
+                 dict([(e(extra), 0)] + bp), {'bytes dict': z}, False)]
 
     def pandas_forms(self, xs):
         """(label, argument for pdextract, description, reordered?) for every
@@ -559,13 +708,30 @@ class C14(Check):
         return out
 
     # ------------------------------------------------------------ (b) E3
-    def op_run(self, op):
+    def op_run(self, op, R=None):
         xs, o = op
         if isinstance(o, list):
             Size = self.rexpy.Size
-            return self.ex(list(xs), {}, size=Size(**SAMPLING_SIZE),
-                           seed=o[1])
+            return self.seeded_op(R, list(xs), {'size': Size(**SAMPLING_SIZE),
+                                                'seed': o[1]}, list(op))
         return self.ex(list(xs), AB.OPTIONS[o])
+
+    def seeded_op(self, R, inp, kw, shown):
+        """a seeded call inside a history: besides its result (compared by
+        the caller) the generator must be as before, and stay so"""
+        rnd = self.random
+        before = rnd.getstate()
+        r = self.call(self.rexpy.extract, inp, **kw)
+        if R is not None:
+            det = {'op': shown, 'sampling_size': SAMPLING_SIZE}
+            if rnd.getstate() != before:
+                sig = 'history:seeded-op:state-not-restored'
+                if sig not in self._late:
+                    self._late.add(sig)
+                    R.viol(sig, 'global-state-restored', det, 'seeded-op')
+            else:
+                self.gc_probe(R, before, det, 'seeded-op-later')
+        return r
 
     def canon(self):
         return (AB.state_fingerprint(self.rexpy),
@@ -595,8 +761,8 @@ class C14(Check):
                 for i, op in enumerate(ops):
                     self.reset()
                     for j in hist:
-                        self.op_run(ops[j])
-                    real = self.op_run(op)
+                        self.op_run(ops[j], R)
+                    real = self.op_run(op, R)
                     R.evals += len(hist) + 1
                     transitions += 1
                     if real != ref[i]:
@@ -741,6 +907,8 @@ class C14(Check):
                 if rnd.getstate() != before:
                     R.viol('seeded-sampled:%s' % root,
                            'global-state-restored', det, label)
+                else:
+                    self.gc_probe(R, before, det, [label, 'state-later'])
                 obs.append((label, pre, r, AB.n_draws(rec.log)))
         R.nontrivial = any(o[3] for o in obs) or not sampled
         R.out('big:K=%d:draws=%s:rex=%d' % (
@@ -773,10 +941,12 @@ class C14(Check):
             kw['size'] = self.rexpy.Size(**SAMPLING_SIZE)
         if 'encoding' in kw:
             inp = [x.encode(kw['encoding']) for x in inp]
+        if kw.get('seed') is not None:
+            return self.seeded_op(self._R, inp, kw, [list(xs), point[1]])
         return self.call(self.rexpy.extract, inp, **kw)
 
     def run_kw(self, case):
-        R = Res()
+        R = self._R = Res()
         sets = KW_MENUS[case['menu']]
         pts = [KW_POINTS[case['a']], KW_POINTS[case['b']]]
         ops = [(xs, pt) for xs in sets for pt in pts]
@@ -886,6 +1056,11 @@ class C14(Check):
             faults.update(AB.bracket_faults(rec.log, seed))
             if after != before:
                 unrestored.append('%s after random.seed(%d)' % (form, pre))
+            else:
+                self.gc_probe(R, before,
+                              {'examples': xs, 'size': pt, 'seed': seed,
+                               'form': form, 'pre': 'random.seed(%d)' % pre},
+                              'state-later')
         R.nontrivial = draws > 0
         root = '+'.join(sorted(faults)) or 'no-bracket-fault'
         detail = {'examples': xs, 'size': pt, 'seed': seed}
